@@ -36,3 +36,5 @@ def run(rep: Report, repo: Repo, tier: str) -> None:
         misc_rules.rule_case_folding(rep, repo, "C11-R8")
     with rep.isolated():
         protocol.rule_accepted_arities(rep, repo, "C11-R9", kinds=["ct_add_test", "ct_add_section", "add_test"])
+    with rep.isolated():
+        protocol.rule_rejections(rep, repo, "C11-R10", kinds=["ct_add_test", "ct_add_section", "add_test"])
